@@ -1551,6 +1551,7 @@ MUTANTS += [
       "        if not np.any(n_labels >= self.n_points_min):", 'C13'),
     M('top-up-fills-the-larger-cluster', U, "            label = np.argmin(n_labels)\n",
       "            label = np.argmax(n_labels)\n", 'C13'),
+    M('trim-candidate-argmax', U, "        index = np.argmin(log_r)\n", "        index = np.argmax(log_r)\n", 'C13'),
     M('prune-guard-all-empty', S, "                    if np.any(self.shell_n == 0):\n",
       "                    if np.all(self.shell_n == 0):\n", 'C12'),
 ]
